@@ -18,8 +18,8 @@ STATE_CLAUSES = {
     "C03": ["placement", "loc", "mach_hold", "agv_hold", "claims", "flags", "agv_phase", "agv_load", "depi"],
     "C05": ["placement", "loc", "mach_hold", "agv_hold", "claims", "capacity", "flags", "feasible", "no_overdue",
             "past", "busy_op", "proc_inner", "output_done", "outages", "outage_nonneg", "agv_phase", "idle_unclaimed",
-            "sto_ok", "depi"],
-    "C07": ["agv_phase", "agv_hold", "no_overdue", "travel_gap", "depi"],
+            "sto_ok", "depi", "pre_ok"],
+    "C07": ["agv_phase", "agv_hold", "no_overdue", "travel_gap", "depi", "pre_ok"],
     "C08": ["capacity", "depi"],
     "C09": ["busy_op", "setup_gap"],
     "C10": ["outages", "outage_nonneg"],
@@ -127,7 +127,7 @@ def _worker(args):
                                          "replay": {"pre_env": rec[1][:3000], "action": rec[2], "impl": rec[3][-1500:],
                                                     "model": m[-1500:]}})
     # 1a. "reports success" (C05): no state.step of an episode driven by offered actions returns success=False
-    #     (theorem C05_step_never_reports_failure_flex for unordered pre-/post-buffers; a violation for any instance)
+    #     (theorem C05_step_never_reports_failure_every_instance)
     if prop == "C05":
         nfail = 0
         for k, r in enumerate(tracer.records):
@@ -160,7 +160,7 @@ def _worker(args):
         # unconditional (flex) theorems also fresh2, the store clauses of wfs_b and nodep - reported when the instance
         # has unordered machine post-buffers (the class those theorems speak about)
         init_clauses = {"C01": ["fresh"], "C04": ["fresh2"], "C03": ["claims", "nodep"], "C02": [], "C07": ["agv_phase"], "C05": [], "C11": [], "C09": []}[prop]
-        flex_hyps = ["placement", "loc", "capacity", "flags", "fresh2", "nodep"]
+        flex_hyps = ["placement", "loc", "capacity", "flags", "fresh2", "nodep"] + (["idle_unclaimed", "pre_ok"] if prop in ("C05", "C07") else [])
         nfresh = nflex = 0
         for e in eps:
             if e.first < e.last:
